@@ -77,7 +77,7 @@ pub fn main_c07(args: &[String]) {
     let _ = std::fs::remove_dir_all(&root); std::fs::create_dir_all(&root).unwrap();
     let pool = build_pool(&mut rng, workdir, &root, if thorough { 400 } else { 80 });
     std::env::set_current_dir(&root).unwrap();
-    let nh = if thorough { 4000 } else { 400 };
+    let nh = if thorough { 4000 } else { 1000 };
     let mut hists = vec![];
     for _ in 0..nh {
         let len = rng.range(1, 8);
@@ -129,7 +129,7 @@ pub fn main_c19(args: &[String]) {
     let pool = build_pool(&mut rng, workdir, &root, if thorough { 300 } else { 60 });
     std::env::set_current_dir(&root).unwrap();
     let mut rep = Report::new("rounds of N in {2, 8, 32} barrier-started threads, each running a random list of calls (all entry points; distinct inputs and the same input on several threads); every result must equal the result of the same call alone on a fresh thread; non-trivial = call that succeeds; distinct by (entry, input, flags)");
-    let rounds = if thorough { 60 } else { 9 };
+    let rounds = if thorough { 60 } else { 15 };
     for round in 0..rounds {
         let nthreads = [2usize, 8, 32][round % 3];
         let per = if thorough { 12 } else { 6 };
